@@ -401,7 +401,9 @@ DEFOP(set_number) {
     MVal *n = w.pick(st.A(0), st.A(1), [&](MVal *m) { return m->type == T_NUMBER && w.mutable_node(m); });
     if (!n) { w.noop(st, "no number"); return; }
     double d = bits2d(st.A(2)); if (d != d) d = -1;
-    double r = cJSON_SetNumberValue(n->c, d);
+    int evals = 0;
+    double r = cJSON_SetNumberValue(n->c, (evals++, d));
+    w.expect(evals == 1, "return", "SetNumberValue evaluated its value argument " + I(evals) + " times");
     w.expect(r == d, "return", "SetNumberValue returned a different number");
     n->num = d;
     w.log.add("set_number " + mv_dump(n, 30));
@@ -422,7 +424,9 @@ DEFOP(set_int) {
     MVal *n = w.pick(st.A(0), st.A(1), [&](MVal *m) { return m->type == T_NUMBER && w.mutable_node(m); });
     if (!n) { w.noop(st, "no number"); return; }
     int v = (int)st.A(2);
-    int r = (int)cJSON_SetIntValue(n->c, v);
+    int evals = 0;   // a value argument with a side effect: the macro must evaluate it once
+    int r = (int)cJSON_SetIntValue(n->c, (evals++, v));
+    w.expect(evals == 1, "return", "SetIntValue evaluated its value argument " + I(evals) + " times");
     w.expect(r == v, "return", "SetIntValue returned a different number");
     n->num = (double)v;
     w.log.add("set_int " + I(v));
@@ -449,8 +453,10 @@ DEFOP(set_bool) {
     MVal *n = w.pick(st.A(0), st.A(1), [&](MVal *m) { return w.mutable_node(m) && m->refkind == R_NONE; });
     if (!n) { w.noop(st, "no node"); return; }
     bool b = st.A(2) & 1;
-    int r = (int)cJSON_SetBoolValue(n->c, b);
+    int evals = 0;
+    int r = (int)cJSON_SetBoolValue(n->c, (evals++, b));
     bool isbool = n->type == T_TRUE || n->type == T_FALSE;
+    w.expect(evals == (isbool ? 1 : 0) || evals == 1, "return", "SetBoolValue evaluated its value argument " + I(evals) + " times");
     if (isbool) {
         n->type = b ? T_TRUE : T_FALSE;
         w.expect((r & 0xFF) == n->type, "return", "SetBoolValue returned type " + I(r));
